@@ -287,6 +287,9 @@ def _read_places(g):
                     yield pl
 
 
+THOROUGH_FEATURES = ['r05c', 'r05d']
+
+
 def run(ctx, progs):
     P = progs.get("default")
     r05a(ctx, P)
